@@ -4,7 +4,7 @@
    check_corr evaluates the operational model of what the code does (subst then eval, build then eval, broadcasting
    evaluation, cmp_model).  Must not import Proofs/Props. *)
 From Coq Require Import ZArith QArith Qround Qabs List Bool NArith.
-Require Import QV.common.Util QV.C12.Model.
+Require Import QV.common.Util QV.C12.Model QV.C12.ModelT.
 Import ListNotations.
 
 Inductive ekind := KUnbound | KDivZero | KIndex | KNonNumeric | KOther.
@@ -31,6 +31,9 @@ Inductive ucase :=
 | CCmp (op : cmpop) (a b : expr) (impl : option bool) (samples : list (list (N * Q)))
 | CVec (es : list expr) (c : call)                           (* ExpressionVector: c_obs is an OArr *)
 | CVecPartial (es : list expr) (s : list (N * expr)) (c : call)   (* ExpressionVector.evaluate_symbolic(s), then evaluate *)
+| CExactTy (e : expr) (tsc : list (N * (Q * ty))) (tvc : list (N * (list Q * ty))) (tolf : bool) (o : obs)
+    (* evaluate_with_exact_rationals on the formula the implementation holds (read back from sympy), typed scope;
+       tolf: some intermediate value is not a double (only used where the typed model predicts a float) *)
 | CCrash.
 
 Definition eps : Q := 1 # 1073741824.   (* 2^-30, relative to max(1,|v|) *)
@@ -133,6 +136,16 @@ Definition ucheck_corr (c : ucase) : bool :=
       end
   | CVec es c => vec_agree (evaluate (env_of c)) es c
   | CVecPartial es s c => vec_agree (fun e => evaluate (env_of c) (subst s e)) es c
+  | CExactTy e s v tolf o =>
+      (* the typed model: exact result of an exact type, or -- int / int -- a float (then only close) *)
+      let r := mk_tenv s v [] in
+      if all_bound (erase r) e then
+        match evalT r e with
+        | Ok (q, t) => agree (is_float t && tolf) (Ok q) o
+        | Err EFn => false
+        | Err _ => true
+        end
+      else true
   | CCrash => false
   end.
 
@@ -163,6 +176,10 @@ Definition ucheck_spec (c : ucase) : bool :=
   | CVec es c => vec_agree (evaluate (env_of c)) es c
   | CVecPartial es s c =>
       if subst_terms_defined (env_of c) s then vec_agree (evaluate (ext (env_of c) s)) es c else true
+  | CExactTy e s v tolf o =>
+      (* the property: exact inputs (ints, TimeType, Rational constants) give the exact rational value *)
+      let r := mk_tenv s v [] in
+      if exact_inputs s v && all_bound (erase r) e then agree false (eval (erase r) e) o else true
   | CCrash => false
   end.
 
